@@ -54,7 +54,7 @@ let bbuf : (int * string * M.braw option) list ref = ref []
 
 let braw_of (a : string list) : M.braw option =
   match a with
-  | ["bnew"; n] -> Some (M.RB (M.BNew (nat n)))
+  | ["bnew"; n; c] -> Some (M.RB (M.BNew (nat n, nat c)))
   | ["bcloseempty"] -> Some (M.RB M.BCloseEmpty)
   | ["bload"; t; v] -> Some (M.RB (M.BLoad (nat t, nat v)))
   | ["bdoneload"; t; v] -> Some (M.RBDoneLoad (nat t, nat v))
@@ -110,7 +110,7 @@ let () =
   register "ENDLIFE" (fun _ _ _ -> lstate := None)
 
 (* ---------------- dispatch / in-flight accounting (coq/SliceDisp.v) ---------------- *)
-let dbuf : (int * string * M.dev option) list ref = ref []
+let dbuf : (int * string * M.xev option) list ref = ref []
 
 let dev_of (a : string list) : M.dev option =
   match a with
@@ -142,7 +142,14 @@ let dev_of (a : string list) : M.dev option =
 
 let () =
   register "DISP" (fun _ _ a -> (match a with t :: _ -> tag := t | _ -> ()); dbuf := []);
-  register "d" (fun ln line a -> dbuf := (ln, line, dev_of a) :: !dbuf);
+  register "d" (fun ln line a ->
+    let x = match a with
+      | ["barcall"; t] -> Some (M.XCall (nat t))
+      | ["barload"; t; v] -> Some (M.XCurLoad (nat t, nat v))
+      | ["barst"; t; v] -> Some (M.XStLoad (nat t, nat v))
+      | ["barret"; t] -> Some (M.XRet (nat t))
+      | _ -> (match dev_of a with Some e -> Some (M.XD e) | None -> None) in
+    dbuf := (ln, line, x) :: !dbuf);
   register "ENDDISP" (fun ln line _ ->
     let evs = List.rev !dbuf in
     incr checked;
@@ -150,7 +157,7 @@ let () =
      | Some (l, s, _) -> mismatch l s ("slice disp " ^ !tag ^ ": operation on the worker's in-flight accounting unknown to the model")
      | None ->
        let raws = List.filter_map (fun (_, _, r) -> r) evs in
-       (match M.drun_from (nat_of_int 0) raws with
+       (match M.xrun_from (nat_of_int 0) raws with
         | M.Inr _ -> ()
         | M.Inl i ->
           let k = int_of_nat i in
